@@ -115,9 +115,12 @@ def run(ctx):
             return e[0] == 'call' and e[1] == X_CONFIRM and e[2] == cblock
         # R02.2 offered-mask bit test on the path, surviving edge = "some offered bit selected"
         guarded = False
+        tls_at = st.events.index(tls[0])
         for br in path_branches(st):
             z = is_bittest(br[2], is_sel, ('param', 2))
-            if z and ((z == 'ne') == branch_truth(br)):
+            # ... and it is established *before* the transport is upgraded (the TLS handshake and CredSSP run inside start_ssl / start_nla:
+            # a test placed after them lets a protocol that was not offered be negotiated first)
+            if z and ((z == 'ne') == branch_truth(br)) and st.events.index(br) < tls_at:
                 guarded = True
         ctx.check(guarded, 'R02.2', key + ':mask',
                   'Ok path via %s: selected & security_protocols != 0 was established on the path (selection is among the offered protocols; '
